@@ -1,7 +1,8 @@
 use core::panic;
 use std::vec;
 
-use laythe_core::{object::Class, utils::IdEmitter, value::Value, ObjRef};
+use laythe_core::{managed::Trace, object::Class, utils::IdEmitter, value::Value, ObjRef};
+use std::io::Write;
 
 /// Verification hook (compiled only with `--cfg laythe_verif`): force every inline cache lookup
 /// to miss, so each property access and invoke takes the slow path
@@ -155,6 +156,28 @@ impl InlineCache {
   fn set_invoke(&mut self, inline_slot: usize, value: Option<InvokeCache>) {
     debug_assert!(inline_slot < self.invoke.len());
     unsafe { *self.invoke.get_unchecked_mut(inline_slot) = value };
+  }
+}
+
+impl Trace for InlineCache {
+  fn trace(&self) {
+    self.property.iter().flatten().for_each(|cache| {
+      cache.class.trace();
+    });
+    self.invoke.iter().flatten().for_each(|cache| {
+      cache.class.trace();
+      cache.method.trace();
+    });
+  }
+
+  fn trace_debug(&self, log: &mut dyn Write) {
+    self.property.iter().flatten().for_each(|cache| {
+      cache.class.trace_debug(log);
+    });
+    self.invoke.iter().flatten().for_each(|cache| {
+      cache.class.trace_debug(log);
+      cache.method.trace_debug(log);
+    });
   }
 }
 
